@@ -1,5 +1,6 @@
 import ShpanVerif.Drive.PipeCommon
 import ShpanVerif.Drive.PipeDyn
+import ShpanVerif.Drive.JoinLife
 /-
 Driver handler for C01: every opened resource is closed exactly once, on every exit path.
 Spec predicate on the observation: for every probe resource the event projection is
@@ -12,6 +13,7 @@ open ShpanVerif.Util ShpanVerif.Model.Pipe ShpanVerif.Drive.PipeCommon
 
 def handle (c obs : String) : String × Bool × String :=
   if c.startsWith "DYN " then ShpanVerif.Drive.PipeDyn.handle c obs else   -- FlatMap family (Model/PipeDyn.lean)
+  if c.startsWith "JL " then ShpanVerif.Drive.JoinLife.handle c obs else    -- lifecycle of the joins (Model/JoinLife.lean)
   if isSpecOnly c then
     -- operators outside the model: the property itself is evaluated on the observation of the real code
     match parseObs obs with
